@@ -377,3 +377,134 @@ pub fn n_c02_value_total() {
         }
     }
 }
+
+// ---------------------------------------------------------------------------------------------------------
+// translator validation for engine E2: the real functions on concrete inputs, results in a canonical text form that
+// tools/e2_validate.py compares with the MIR executor's result for the same input
+// ---------------------------------------------------------------------------------------------------------
+#[cfg(all(test, not(kani)))]
+mod oracle {
+    use super::*;
+    use std::fmt::Write as _;
+
+    fn hex(b: &[u8]) -> String {
+        let mut s = String::new();
+        for x in b {
+            let _ = write!(s, "{:02x}", x);
+        }
+        if s.is_empty() { s.push('-'); }
+        s
+    }
+    fn unhex(s: &str) -> Vec<u8> {
+        if s == "-" { return Vec::new(); }
+        (0..s.len() / 2).map(|i| u8::from_str_radix(&s[2 * i..2 * i + 2], 16).unwrap()).collect()
+    }
+    fn kind(e: &AutosarDataError) -> String {
+        match e {
+            AutosarDataError::ParserError { source, line, .. } => {
+                let d = format!("{:?}", source);
+                let name = d.split(|c: char| !c.is_alphanumeric()).next().unwrap_or("").to_string();
+                format!("{}@{}", name, line)
+            }
+            _ => "other".to_string(),
+        }
+    }
+    fn warn(p: &ArxmlParser) -> String {
+        let mut s = format!("W{}", p.warnings.len());
+        for w in &p.warnings {
+            s.push(':');
+            s.push_str(&kind(w));
+        }
+        s
+    }
+    fn cdata(v: &CharacterData) -> String {
+        match v {
+            CharacterData::String(s) => format!("S:{}", hex(s.as_bytes())),
+            CharacterData::UnsignedInteger(u) => format!("U:{}", u),
+            CharacterData::Float(f) => format!("F:{:016x}", f.to_bits()),
+            CharacterData::Enum(e) => format!("E:{}", *e as u16),
+        }
+    }
+    fn dummy_validate(s: &[u8]) -> bool {
+        !s.is_empty() && s.iter().all(|c| c.is_ascii_digit())
+    }
+
+    #[test]
+    fn verif_oracle() {
+        let Ok(inp) = std::env::var("VERIF_ORACLE_IN") else { return; };
+        let out_path = std::env::var("VERIF_ORACLE_OUT").unwrap();
+        let text = std::fs::read_to_string(inp).unwrap();
+        let mut out = String::new();
+        static ITEMS: [(EnumItem, u32); 2] = [(EnumItem::default, 0x3ffff), (EnumItem::preserve, 0x0ffff)];
+        for line in text.lines() {
+            let f: Vec<&str> = line.split_whitespace().collect();
+            if f.is_empty() { continue; }
+            let res = match f[0] {
+                "trim" => hex(trim_byte_string(&unhex(f[1]))),
+                "unescape" => {
+                    let b = unhex(f[1]);
+                    match std::str::from_utf8(&b) {
+                        Err(_) => "skip".to_string(),
+                        Ok(s) => {
+                            let mut p = ArxmlParser::new(PathBuf::new(), &[], f[2] == "1");
+                            p.line = 7;
+                            match p.unescape_string(s) {
+                                Ok(v) => format!("Ok {} {}", hex(v.as_bytes()), warn(&p)),
+                                Err(e) => format!("Err {}", kind(&e)),
+                            }
+                        }
+                    }
+                }
+                "escape" => {
+                    let b = unhex(f[1]);
+                    match String::from_utf8(b) {
+                        Err(_) => "skip".to_string(),
+                        Ok(s) => {
+                            let mut o = String::new();
+                            CharacterData::String(s).serialize_internal(&mut o);
+                            hex(o.as_bytes())
+                        }
+                    }
+                }
+                "pcd" => {
+                    let b = unhex(f[1]);
+                    let preserve = f[3] == "1";
+                    let ml: i64 = f[4].parse().unwrap();
+                    let max_length = if ml < 0 { None } else { Some(ml as usize) };
+                    let spec = match f[2] {
+                        "string" => CharacterDataSpec::String { preserve_whitespace: preserve, max_length },
+                        "pattern" => CharacterDataSpec::Pattern { check_fn: dummy_validate, regex: "[0-9]+", max_length },
+                        "uint" => CharacterDataSpec::UnsignedInteger,
+                        "enum" => CharacterDataSpec::Enum { items: &ITEMS },
+                        _ => CharacterDataSpec::Float,
+                    };
+                    let mut p = ArxmlParser::new(PathBuf::new(), &[], f[5] == "1");
+                    p.line = 7;
+                    p.fileversion = AutosarVersion::Autosar_00050;
+                    match p.parse_character_data(&b, &spec) {
+                        Ok(v) => format!("Ok {} {}", cdata(&v), warn(&p)),
+                        Err(e) => format!("Err {} {}", kind(&e), warn(&p)),
+                    }
+                }
+                "cmp" => {
+                    let mk = |k: &str, v: &str| -> Option<CharacterData> {
+                        Some(match k {
+                            "s" => CharacterData::String(String::from_utf8(unhex(v)).ok()?),
+                            "u" => CharacterData::UnsignedInteger(v.parse().ok()?),
+                            "f" => CharacterData::Float(f64::from_bits(u64::from_str_radix(v, 16).ok()?)),
+                            _ => CharacterData::Enum(unsafe { core::mem::transmute::<u16, EnumItem>(v.parse::<u16>().ok()?) }),
+                        })
+                    };
+                    match (mk(f[1], f[2]), mk(f[3], f[4])) {
+                        (Some(a), Some(b)) => format!("{:?}", a.cmp(&b)),
+                        _ => "skip".to_string(),
+                    }
+                }
+                _ => "unknown".to_string(),
+            };
+            out.push_str(&res);
+            out.push('\n');
+        }
+        std::fs::write(out_path, out).unwrap();
+    }
+}
